@@ -37,6 +37,8 @@ RESERVED = ["metador_container", "/metador_container/links", "metador_container/
             "/g/sub/metador_meta_", "g/metador_meta_/core.dir__0.1.0=zz",
             # '..' is an ordinary link name for h5py/IH5, a lexical normalisation must not make the reserved segment vanish
             "metador_foo/..", "metador_container/../x", "g/metador_meta_/../y", "g/sub/../metador_meta_d"]
+# h5py accepts bytes names: the same reserved paths as bytes objects must be refused as well
+RESERVED += [b"metador_container", b"/metador_container/links", b"g/metador_meta_d", b"metador_x", b"g/sub/metador_meta_"]
 NEAR = ["xmetador_", "my_metador_x", "Metador_container", "metadorx", "g/xmetador_meta_"]
 
 
@@ -72,6 +74,12 @@ def setup(d, driver):
     return sub
 
 
+def _reserved_segment(path):
+    if isinstance(path, bytes):
+        return next(x for x in path.strip(b"/").split(b"/") if x.startswith(b"metador_"))
+    return next(x for x in path.strip("/").split("/") if x.startswith("metador_"))
+
+
 def templates(method, path, mc, grp):
     """Argument tuples with `path` in every path position for known methods; generic probes otherwise."""
     node_src, node_grp = mc["g/d"], mc["g/sub"]
@@ -82,7 +90,7 @@ def templates(method, path, mc, grp):
         "create_dataset": [((path,), {"data": 5})], "require_dataset": [((path,), {"shape": (1,), "dtype": "i8"})],
         "move": [((path, "zz_dst"), {}), (("top", path), {}), (("g/d", path), {})],
         "copy": [((path, "zz_dst"), {}), (("top", path), {}), (("g/d", path), {}), ((node_src, path), {}),
-                 ((node_src, node_grp), {"name": next(x for x in path.strip("/").split("/") if x.startswith("metador_"))}),
+                 ((node_src, node_grp), {"name": _reserved_segment(path)}),
                  ((node_src, node_grp), {"name": path}),
                  ((path, node_grp), {})],
     }
@@ -132,9 +140,12 @@ def protocol_probes(acc, d, driver, seed):
                         continue
                     for args, kw in templates(mname, path, mc, grp):
                         before = raw_dump(sub.raw)
-                        desc = [driver, gname, mname, [a if isinstance(a, (str, int)) else "<node>" for a in args], kw]
+                        desc = [driver, gname, mname, [a if isinstance(a, (str, int)) else repr(a) if isinstance(a, bytes) else "<node>" for a in args],
+                                {k: repr(v) if isinstance(v, bytes) else v for k, v in kw.items()}]
                         acc.case(desc, nontrivial=True)
                         acc.count("probes")
+                        if isinstance(path, bytes):
+                            acc.count("bytes_path_probes")
                         try:
                             res = getattr(grp, mname)(*args, **kw)
                             rejected = (mname == "__contains__" and res is False) or (mname == "get" and res is None and False)
@@ -145,13 +156,13 @@ def protocol_probes(acc, d, driver, seed):
                         if after != before:
                             ch = sorted(set(after) ^ set(before)) or [k for k in after if after[k] != before.get(k)]
                             acc.violation(f"reserved-path-effect:{mname}", f"{mname}{tuple(desc[3])} {kw} at {gname} changed the raw tree: {ch[:3]} (call {'raised' if rejected else 'returned'})",
-                                          {"kind": "probe", "driver": driver, "group": gname, "method": mname, "path": path})
+                                          {"kind": "probe", "driver": driver, "group": gname, "method": mname, "path": repr(path) if isinstance(path, bytes) else path})
                             sub.close(); gc.collect()
                             sub = setup(acc.newdir("c8r"), driver); mc = sub.mc
                             grp = mc if gname == "/" else mc[gname]
                         elif not rejected:
                             acc.violation(f"reserved-path-accepted:{mname}", f"{mname}{tuple(desc[3])} {kw} at {gname} returned {returned!r} instead of being rejected",
-                                          {"kind": "probe", "driver": driver, "group": gname, "method": mname, "path": path})
+                                          {"kind": "probe", "driver": driver, "group": gname, "method": mname, "path": repr(path) if isinstance(path, bytes) else path})
         # near misses must work as ordinary names
         for nm in NEAR:
             acc.count("near_miss_probes")
@@ -192,7 +203,7 @@ def run_unit(u, acc):
 
 def inconclusive(cov):
     c = cov["counters"]
-    return [f"monitor counter {k} is zero" for k in ("probes", "near_miss_probes", "listings") if not c.get(k)]
+    return [f"monitor counter {k} is zero" for k in ("probes", "bytes_path_probes", "near_miss_probes", "listings") if not c.get(k)]
 
 
 def replay(case, acc):
